@@ -6,7 +6,7 @@ import ast
 import itertools
 from typing import Dict, List, Optional, Sequence, Set, Tuple
 
-from ..core import origins, Unrecognised, call_name, calls_in, dotted, enclosing_def, facts, module_of, parent, qual, site, src, walk_local
+from ..core import origins, Unrecognised, call_name, calls_in, dotted, enclosing_def, facts, module_of, parent, qual, site, src, walk_local, significant_body
 from ..dispatch import check_flow_arity, find_flow_tables, first_guard, resolve_handler
 from ..formulas import DUAL, LANG, QUANT_FIELDS, PropError, expand_classes, formula_classes, if_chain, isinstance_classes, prop_eval
 
@@ -66,9 +66,10 @@ def reduce_shape(e: ast.expr) -> Optional[Tuple[str, str, str]]:
     if isinstance(seq, ast.Name):
         # local list: args = [f(arg) for arg in formula.args]
         fn = enclosing_def(e)
-        for n in walk_local(fn):
-            if isinstance(n, ast.Assign) and len(n.targets) == 1 and src(n.targets[0]) == seq.id:
-                seq = n.value
+        name = seq.id
+        bound = [n.value for n in walk_local(fn) if isinstance(n, ast.Assign) and len(n.targets) == 1 and src(n.targets[0]) == name]
+        if len(bound) == 1:
+            seq = bound[0]
     if not (isinstance(seq, (ast.ListComp, ast.GeneratorExp)) and len(seq.generators) == 1 and isinstance(seq.generators[0].target, ast.Name) and not seq.generators[0].ifs):
         return None
     var = seq.generators[0].target.id
@@ -166,7 +167,10 @@ def rule_n2(ctx):
         if g is None:
             raise Unrecognised("C09.N2", f"{LANG}:{src(h)}", "no responsibility guard")
         # guards: not isinstance(f, C) [and not isinstance(f, D)]
-        test = target.body[0].test if isinstance(target.body[0], ast.If) else None
+        sig = significant_body(target)
+        test = sig[0].test if sig and isinstance(sig[0], ast.If) else None
+        if test is None:
+            raise Unrecognised("C09.N2", f"{LANG}:{src(h)}", "responsibility guard is not the first significant statement")
         classes: List[str] = []
         for sub in ast.walk(test):
             if isinstance(sub, ast.Call) and call_name(sub) == "isinstance":
